@@ -144,13 +144,13 @@ def exK : Crypto where
 
 def exCA : Cert :=
   { version := 2, curve := 1, name := [99], networks := [⟨⟨.v4, 0x0a000000⟩, 8⟩],
-    unsafeNetworks := [], groups := [[1], [2]], isCA := true, notBefore := 100, notAfter := 900, issuer := "",
+    unsafeNetworks := [], groups := [[1], [2]], isCA := true, notBefore := 100000000000, notAfter := 900000000000, issuer := "",
     publicKey := [7], signature := [1] }
 
 def exLeaf : Cert :=
   { version := 2, curve := 1, name := [104], networks := [⟨⟨.v4, 0x0a000001⟩, 24⟩],
-    unsafeNetworks := [⟨⟨.v4, 0xc0a80000⟩, 16⟩], groups := [[2]], isCA := false, notBefore := 100,
-    notAfter := 900, issuer := "ca01", publicKey := [8], signature := [2] }
+    unsafeNetworks := [⟨⟨.v4, 0xc0a80000⟩, 16⟩], groups := [[2]], isCA := false, notBefore := 100000000000,
+    notAfter := 900000000000, issuer := "ca01", publicKey := [8], signature := [2] }
 
 def exPool : Pool := (({} : Pool).addCA exK 0 exCA).1
 
